@@ -377,6 +377,8 @@ pub fn mon_c10(f: &Flow, m: &mut Mon) {
                 hi += 1; // an (optional) empty report may be counted or not
             }
         }
+        lo += e.unbuildable_lost;
+        hi += e.unbuildable_lost;
         let lost = c.metrics.iter().filter(|x| matches!(x.1, MetricSnap::EventLost(_))).count();
         if all_known && c.reports.len() == e.reports.len() {
             m.judge("c10-lost-event-accounting", lost >= lo && lost <= hi, if lost < lo { "undercounted" } else { "overcounted" }, || {
@@ -498,11 +500,16 @@ pub fn mon_state(f: &Flow, setup: &Setup, which: Proj, m: &mut Mon) {
         // model state at q = state after the last check / ping that finished before q
         let mut model: Option<&MState> = None;
         let mut at = 0;
+        let mut last_check_idx: Option<usize> = None;
         for c in f.checks.iter().filter(|c| c.complete && c.end_seq < q) {
             if c.end_seq >= at {
                 at = c.end_seq;
                 model = Some(&c.after);
+                last_check_idx = Some(c.idx);
             }
+        }
+        if which == Proj::Cohort && last_check_idx.map(|k| f.skip_commit_judgement_after_checks.contains(&k)).unwrap_or(false) {
+            continue;
         }
         for p in f.pings.iter().filter(|p| p.req.resp.as_ref().map(|r| r.0 < q).unwrap_or(false)) {
             let s = p.req.resp.as_ref().unwrap().0;
